@@ -559,15 +559,20 @@ def oracle_pipe(ck, rng):
         return img + k * scale
     small = np.ones((2, 2, 2), dtype=np.float32)
     for sc in (1.0, 0.5, 4.0):
-        if not np.allclose(np.asarray(times_scale()(small, sc)), small * sc): fails.append(f"curried converter with a default scale evaluated at scale {sc}")
-        if not np.allclose(np.asarray(box_of()(sc)), 3.0 * sc) or not np.allclose(np.asarray(box_of(value=2.0)(sc)), 2.0 * sc): fails.append(f"curried provider with a default scale at scale {sc}")
-        if not np.allclose(np.asarray(plus(k=2.0)(small, sc)), small + 2.0 * sc): fails.append(f"curried converter with default scale and extra argument at scale {sc}")
-        if not np.allclose(np.asarray((times_scale() @ box_of())(sc)), 3.0 * sc * sc): fails.append(f"composition of curried functions with default scales at scale {sc}")
+        for nm_, fn_, want_ in (("curried converter with a default scale", lambda: times_scale()(small, sc), small * sc),
+                                ("curried provider with a default scale", lambda: box_of()(sc), np.full((2, 2, 2), 3.0 * sc)),
+                                ("curried provider with a default scale and an argument", lambda: box_of(value=2.0)(sc), np.full((2, 2, 2), 2.0 * sc)),
+                                ("curried converter with default scale and extra argument", lambda: plus(k=2.0)(small, sc), small + 2.0 * sc),
+                                ("composition of curried functions with default scales", lambda: (times_scale() @ box_of())(sc), np.full((2, 2, 2), 3.0 * sc * sc))):
+            try:
+                if not np.allclose(np.asarray(fn_()), want_): fails.append(f"{nm_} evaluated at scale {sc}")
+            except Exception as e:  # noqa
+                fails.append(f"{nm_} at scale {sc} raised {type(e).__name__}")
     # file providers: same tolerance rule (relative) and same resampling as the array provider, at any magnitude of the scale
     import tempfile, shutil, os, mrcfile
     dtmp = tempfile.mkdtemp(prefix="c19", dir=common.WORKROOT)
     try:
-        fimg = rng.normal(size=(10, 11, 12)).astype(np.float32)
+        fimg = rng.normal(size=(20, 22, 24)).astype(np.float32)      # large enough for a 4 % change of scale to change the shape
         for osc in (0.2, 1.0, 25.0):
             pth = os.path.join(dtmp, f"t{osc}.mrc")
             with mrcfile.new(pth, overwrite=True) as fh:
